@@ -958,3 +958,23 @@ pub proof fn lemma_single_done(p: PartV, ab: AbV, g: int)
     }
     assert(grp_min(p, g, r));
 }
+
+
+// ---------------------------------------------------------------- renumber_states_in_transitions: every state id replaced by the index of its group
+pub open spec fn vec_renum(p: PartV, a: Seq<StateID>, b: Seq<StateID>) -> bool {
+    a.len() == b.len() && forall|q: int| 0 <= q < a.len() ==> (#[trigger] b[q]).0 < p.len() && p[b[q].0 as int].contains(a[q])
+}
+pub open spec fn entry_renum(p: PartV, a: TvEntry, b: TvEntry) -> bool {
+    &&& b.0.0 < p.len() && p[b.0.0 as int].contains(a.0)
+    &&& forall|cc: CharClassID| #[trigger] b.1@.contains_key(cc) <==> a.1@.contains_key(cc)
+    &&& forall|cc: CharClassID| #[trigger] a.1@.contains_key(cc) ==> vec_renum(p, a.1@[cc]@, b.1@[cc]@)
+}
+pub open spec fn tv_bounded(tv: Seq<TvEntry>, n: int) -> bool {
+    &&& forall|i: int| 0 <= i < tv.len() ==> (#[trigger] tv[i]).0.0 < n
+    &&& forall|i: int, cc: CharClassID, t: StateID| #[trigger] tv_edge(tv, i, cc, t) ==> t.0 < n
+}
+/// the keys of a per-class map, each once (std BTreeMap::keys; used to visit the values one by one, rule E15)
+#[verifier::external_body]
+pub fn verif_keys(m: &BTreeMap<CharClassID, Vec<StateID>>) -> (r: Vec<CharClassID>)
+    ensures r@.no_duplicates(), forall|cc: CharClassID| #[trigger] r@.contains(cc) <==> m@.contains_key(cc)
+{ m.keys().cloned().collect() }
